@@ -98,6 +98,21 @@ def gen(seed, run, tier='quick'):
     if rng.random() < 0.3:
         # twins among the generic converters, too
         gconvs[-1] = dict(gconvs[0])
+    stubs_ = [j for j, g in enumerate(gconvs)
+              if g['kind'] in ('stub', 'unhashable', 'method')]
+    if stubs_ and rng.random() < 0.25:
+        # a converter that triangulates: for one pair it asks the library
+        # to convert to the third unit first (served by whichever converter
+        # is registered then) and applies its own factor to that
+        for g in gconvs:
+            g['table'] = {k_: v_ for k_, v_ in g['table'].items()
+                          if v_[0] != 'expire'}
+        j = rng.choice(stubs_)
+        a_, b_ = rng.sample(range(3), 2)
+        gconvs[j] = dict(gconvs[j], table=dict(
+            gconvs[j]['table'],
+            **{f"{a_}{b_}": ['via', 3 - a_ - b_,
+                             f"{rng.randrange(2, 900)}/13"]}))
     # swarm: op mix
     w = {
         'enter': rng.choice([2, 4, 6]),
@@ -119,6 +134,8 @@ def gen(seed, run, tier='quick'):
         'hrem': rng.choice([0, 0, 1]),
         # many registrations at once (sizes are a knob, too: a stack of
         # 300 converters is as legal as one of 3)
+        # many other quantity types come and use their registries
+        'manytypes': rng.choice([0, 0, 0, 1]),
         'regn': rng.choice([0, 0, 0, 1]),
         'remn': rng.choice([0, 0, 0, 1]),
         'subreg': rng.choice([0, 0, 1, 2]),
@@ -234,6 +251,8 @@ def gen(seed, run, tier='quick'):
             toks.append(['greg', rng.randrange(n_g)])
         elif k == 'grem':
             toks.append(['grem', rng.randrange(n_g)])
+        elif k == 'manytypes':
+            toks.append(['manytypes', rng.choice([5, 40, 200])])
         elif k == 'regn':
             c = rng.randrange(n_mc)
             n_ = rng.choice([3, 40, 300])
@@ -417,6 +436,12 @@ def execute(h):
                 return None
             if e[0] == 'amtf':
                 return float(qty.amount) * float(e[1])
+            if e[0] == 'via':
+                try:
+                    inner = qty.convert(gunits[int(e[1])])
+                except Exception:       # noqa: cannot get there
+                    return None
+                return inner.amount * _frac(e[2])
             return qty.amount * _frac(e[1])
 
         # used as converter in its own right: every access to `obj.convert`
@@ -509,8 +534,13 @@ def execute(h):
 
     def gdirect(gc, a, b, k):
         spec = getattr(gc, 'table', None)
+        if spec is None and isinstance(gc, _Method):
+            spec = gc.stub.table
         if spec is not None and spec.get(f"{a}{b}", [None])[0] == 'expire':
             return ('expire',)      # not called here: it would unregister
+        if spec is not None and spec.get(f"{a}{b}", [None])[0] == 'via':
+            # depends on what is registered when it is asked
+            return ('via', int(spec[f"{a}{b}"][1]), spec[f"{a}{b}"][2])
         try:
             amt = gc(gq_sets[k][a], gunits[b])
         except _StubRaise:
@@ -582,7 +612,7 @@ def execute(h):
 
     expired = []
 
-    def expected_generic(p):
+    def expected_generic(p, depth=0):
         """first converter, most recent first, that returns an amount."""
         skipped = 0
         for gi in reversed(glist):
@@ -596,6 +626,20 @@ def execute(h):
             if a[0] == 'none':
                 skipped += 1
                 continue
+            if a[0] == 'via':
+                # it asks for the conversion to the third unit first
+                if depth:
+                    return ('unjudged',), skipped
+                bump(probes, 'converter_asked_the_library_itself')
+                inner, _s = expected_generic((p[0], a[1], p[2]), depth + 1)
+                if inner[0] == 'unjudged':
+                    return ('unjudged',), skipped
+                if inner[0] != 'ok':
+                    skipped += 1
+                    continue
+                from fractions import Fraction
+                return ('ok', _num(Fraction(inner[1]) * _frac(a[2]))), \
+                    skipped
             if a[0] in ('raise', 'unjudged'):
                 return ('unjudged',), skipped
             return a, skipped
@@ -902,6 +946,22 @@ def execute(h):
                     violate('money_remove', 'top_refused', i,
                             observed=list(o))
                 after(i, o[0])
+        elif op == 'manytypes':
+            # other parts of the program declare their own types, look at
+            # their (empty) converter lists, register and use a converter
+            base_n = len(other_types)
+            for j in range(t[1]):
+                oc = QuantityMeta(f'O{base_n + j}', (Quantity,), {})
+                ou = [oc.new_unit(f'o{base_n + j}a'),
+                      oc.new_unit(f'o{base_n + j}b')]
+                list(oc.registered_converters())
+                if j % 3 == 0:
+                    oc.register_converter(TableConverter(
+                        {(ou[0], ou[1]): (2, 0)}))
+                    (3 * ou[0]).convert(ou[1])
+                other_types.append(oc)
+            bump(probes, 'other_types_%d' % (len(other_types) // 100 * 100))
+            after(i, 'ok')
         elif op == 'regn':
             c = t[1] % len(mconvs)
             for _ in range(t[2]):
@@ -1030,6 +1090,7 @@ def execute(h):
             raise core.HarnessError(f"unknown token {t}")
 
     next_in_thread = [False]
+    other_types = []
 
     def in_thread(i, fn):
         """Run fn in a fresh thread while this one waits.  A call that
@@ -1216,6 +1277,8 @@ def _sym(t):
         return 't.'
     if op in ('regn', 'remn'):
         return {'regn': 'N', 'remn': 'n'}[op] + '.'
+    if op == 'manytypes':
+        return 'M.'
     return '??'
 
 
